@@ -309,7 +309,7 @@ def run(chk):
     seq_ok = False
     src = None
     from . import inline
-    for nb0 in p.nested(tpk.path):
+    for nb0 in p.nested_of(tpk):
         nb = tpk if nb0 is tpk else inline.inlined(p, nb0)
         for bb, i, rv in find_aggs(nb, "ContHeader"):
             Tn = flow.Terms(p, nb)
